@@ -100,6 +100,10 @@ def build(ctx, case, choices=None, allow_timer_choice=True):
             good_minus.add(shnum)
     sc.gplus, sc.gminus = len(good_plus), len(good_minus)
     g.sched.choices, g.sched.ci = list(choices or []), 0
+    # the reader's default maximum segment size (basis of its initial guess) may be smaller than the file's real segment size
+    from allmydata.immutable.downloader.node import DownloadNode
+    from allmydata.interfaces import DEFAULT_IMMUTABLE_MAX_SEGMENT_SIZE
+    DownloadNode.default_max_segment_size = case.get("guess") or DEFAULT_IMMUTABLE_MAX_SEGMENT_SIZE
     return sc
 
 
